@@ -179,16 +179,19 @@ def standin(tier, seed):
             sim.add_move(_DM(np.arange(4), _Ball(0.2)), Scripted(g2, 0.5), name="d")
             if kind == "Isobaric":
                 sim.add_move(_CM(), Scripted(g2, 0.5), name="c")
-            sim.run(3)
-            a.positions[[0, 2]] += g2.normal(size=(2, 3)) * 0.1          # in place, as users do
-            if kind == "Isobaric" and rep % 2:
-                a.set_cell(a.cell.array * 1.01, scale_atoms=True)
-            for nm in sim.moves:
-                sim.moves[nm].criteria = Scripted(g2, 0.0)                 # everything is rejected from now on
-            snap = deep(a)
-            sim.run(2)
             case = {"driver": kind, "edited_between_runs": True, "rep": rep}
             V.case(case)
+            try:
+                sim.run(3)
+                a.positions[[0, 2]] += g2.normal(size=(2, 3)) * 0.1          # in place, as users do
+                if kind == "Isobaric" and rep % 2:
+                    a.set_cell(a.cell.array * 1.01, scale_atoms=True)
+                for nm in sim.moves:
+                    sim.moves[nm].criteria = Scripted(g2, 0.0)                 # everything is rejected from now on
+                snap = deep(a)
+                sim.run(2)
+            except Exception as e:  # noqa: BLE001
+                V.add(f"{kind}(second run after the user edited the atoms):raises", case, repr(e)); break
             d = diff(a, snap)
             if d:
                 V.add(f"{kind}(second run after the user edited the atoms):not_restored", case, "; ".join(d)); break
